@@ -196,9 +196,10 @@ def gen_plan(seed, prop, faults, nested=False):
         ki = rng.randrange(len(structs))
         q = {'k': ki, 'f': fi, 'mc': f.get('mc', f['logic']),
              'form': 'obj', 'F': None, 'parser': 'none'}
-        if f['text_ok'] and rng.random() < 0.35:
+        if f['text_ok'] and rng.random() < 0.3:
             q['form'] = 'text'
-            q['parser'] = rng.choice(['none', 'none', 'shared'])
+            # a fresh default parser costs ~90 ms of Lark grammar analysis
+            q['parser'] = rng.choice(['none', 'shared', 'shared'])
         if structs[ki]['F'] and rng.random() < 0.6 and \
                 (prop == 'C07') and q['mc'] != 'LTL':
             q['F'] = rng.randrange(len(structs[ki]['F']))
